@@ -201,7 +201,6 @@ def aggregate(mod, prop, tier, seed, cases, results, inconclusive, wall):
         r, v = g["first"]
         entry = next((e for e in kf.get("known", []) if finding_matches(e, prop, v)), None)
         if entry is not None:
-            lines.append("KNOWN-FINDING: property=%s %s" % (prop, entry["what"]))
             known_seen.append({"finding": entry.get("id"), "count": g["count"], "example_case": r["id"]})
             continue
         n_new += 1
@@ -214,6 +213,15 @@ def aggregate(mod, prop, tier, seed, cases, results, inconclusive, wall):
         lines.append("VIOLATION property=%s replay=%s" % (prop, os.path.relpath(path, ROOT)))
         lines.append("  component=%s kind=%s trigger=%s n=%d detail=%s" % (
             v.get("component"), v.get("kind"), v.get("trigger"), g["count"], str(v.get("detail"))[:300]))
+    # every listed finding of this property is reported, with the number of times this run reproduced it
+    seen_count = collections.Counter()
+    for ks in known_seen:
+        seen_count[ks["finding"]] += ks["count"]
+    for e in kf.get("known", []):
+        if e.get("property") == prop:
+            n_seen = seen_count.get(e.get("id"), 0)
+            lines.insert(0, "KNOWN-FINDING: property=%s %s [%s; %s]" % (
+                prop, e["what"], e.get("id"), "reproduced %d times in this run" % n_seen if n_seen else "not reproduced in this run"))
     # ---- inconclusive conditions
     for m in getattr(mod, "REQUIRED_MONITORS", []):
         if monitors.get(m, 0) == 0:
